@@ -745,6 +745,15 @@ func runSearch(id string, ps *propSpec, tier string, seed uint64, bud time.Durat
 						break
 					}
 					crashViol(crashed, stderr, t.race)
+					a.mu.Lock()
+					tooMany := len(a.infra) >= 8
+					a.mu.Unlock()
+					if tooMany || time.Now().After(deadline) {
+						// the simulator itself is in trouble (watchdog, unexplained
+						// deaths) or the budget is spent: do not grind through the
+						// rest of the batch
+						break
+					}
 					// continue after the crashed spec
 					idx := -1
 					for i := range specs {
@@ -767,6 +776,12 @@ func runSearch(id string, ps *propSpec, tier string, seed uint64, bud time.Durat
 	}
 	n := 0
 	for time.Now().Before(deadline) && (maxRuns == 0 || n < maxRuns) {
+		a.mu.Lock()
+		tooMany := len(a.infra) >= 8
+		a.mu.Unlock()
+		if tooMany {
+			break
+		}
 		specs, race := gen.next(batch)
 		if len(specs) == 0 {
 			continue
